@@ -1,6 +1,7 @@
 package props
 
 import (
+	"encoding/hex"
 	"encoding/json"
 	"fmt"
 	"math/bits"
@@ -131,6 +132,10 @@ func c18RunSet(res *c18Res, feeA, feeI uint, set []c18Proof, onlyAmount int, onl
 		ps, err := world.Unblind(sigs, outs, m.Keys(m.ActiveID()))
 		if err != nil {
 			return cashu.Proof{}, err
+		}
+		// stored the way the wallet stores what it mints: with the DLEQ proof and its blinding factor
+		if sigs[0].DLEQ != nil {
+			ps[0].DLEQ = &cashu.DLEQProof{E: sigs[0].DLEQ.E, S: sigs[0].DLEQ.S, R: hex.EncodeToString(outs[0].R.Serialize())}
 		}
 		return ps[0], nil
 	}
@@ -365,7 +370,11 @@ func c18RunSet(res *c18Res, feeA, feeI uint, set []c18Proof, onlyAmount int, onl
 				res.V = append(res.V, rt.Violation{Property: "C18", Key: "C18/sender-balance", What: fmt.Sprintf("%s: new balance %d + sent %d + swap fee burnt %d != old balance %d", ctx, nb, sum, burnt, balance), Replay: rp})
 			}
 			// the recipient redeems: nets exactly the requested amount (with fees) / sum - fee (without)
-			tok, err := cashu.NewTokenV4(sent, wworld.URL("a"), cashu.Sat, false)
+			// (the token carries the DLEQ proofs, as a token made by the wallet's own front end does)
+			tok, err := cashu.NewTokenV4(sent, wworld.URL("a"), cashu.Sat, true)
+			if err != nil {
+				tok, err = cashu.NewTokenV4(sent, wworld.URL("a"), cashu.Sat, false)
+			}
 			var got uint64
 			if err == nil {
 				func() {
